@@ -89,6 +89,9 @@ var c14Args = []struct {
 	{"non-string: integer", func(rel string, n int) (string, string, map[string]any) { return "", "12", nil }, true},
 	{"non-string: nil", func(rel string, n int) (string, string, map[string]any) { return "", "nothing", nil }, true},
 	{"non-string: list", func(rel string, n int) (string, string, map[string]any) { return "", "l", nil }, true},
+	// the file name written WITHOUT quotes: a variable path (or a syntax error) whose value is nil, although a file of
+	// exactly that spelling exists
+	{"non-string: unquoted file name", func(rel string, n int) (string, string, map[string]any) { return "", rel, nil }, true},
 }
 
 var c14Mains = []string{"main.html", "sub/main.html", "deep/er/main.html"}
@@ -531,7 +534,7 @@ func init() {
 	explore.Register(&explore.Prop{
 		ID:    "C14",
 		Level: "fault_enumeration",
-		Rule: "three files (a, a2, sub/b relative to the main template) each independently on disk / in the cache only / in both with different content / missing (4^3 = 64 configurations; 'missing' is the injected fault) x 7 acyclic include graphs (one whose file edges carry trim markers) x 8 argument forms (literal, variable, variable assigned earlier, filtered expression, map property, three non-strings) x 4 included bodies (reads variables, assigns, failing filter, syntax error) x main template parsed at 2 (quick) / 3 directory depths and without a path; " +
+		Rule: "three files (a, a2, sub/b relative to the main template) each independently on disk / in the cache only / in both with different content / missing (4^3 = 64 configurations; 'missing' is the injected fault) x 7 acyclic include graphs (one whose file edges carry trim markers) x 9 argument forms (literal, variable, variable assigned earlier, filtered expression, map property, four non-strings incl. the file name written without quotes) x 4 included bodies (reads variables, assigns, failing filter, syntax error) x main template parsed at 2 (quick) / 3 directory depths and without a path; " +
 			"a second family changes the included file between renders of one parsed template on one engine (all sequences of 3 states from {disk v1, disk v2, removed with/without cache entry}, direct and nested); a third family renders two roots from different directories that share an included file on ONE engine in every order (each result must equal the fresh-engine result); oracle = reference inliner (textual substitution of resolved content) rendered by the engine itself, or a SourceError with os.IsNotExist cause; class = (graph, argument form, outcome kind)",
 		Assumptions: []string{
 			"nested includes are only generated between files of the main template's own directory, where 'relative to the includer' and 'relative to the main template' coincide (the statement does not separate them)",
